@@ -478,6 +478,7 @@ impl<'de> de::Deserialize<'de> for StringHashSet {
                 let mut values = StringHashSet::new();
 
                 while let Some(key) = visitor.next_key()? {
+                    let _: de::IgnoredAny = visitor.next_value()?;
                     values.insert(key);
                 }
 
